@@ -99,7 +99,11 @@ fn v(sig: &str, text: String, input: &[u8]) -> Viol {
 
 /// All oracles on one valid record.
 pub fn check_roundtrip(rec: &Rec, r: &mut Rng) -> Result<u64, Viol> {
-    let w = store::rec_to_wal(rec);
+    // (the crate's state value can only be obtained by decoding a state body: that decode is part of what is judged)
+    let w = match guarded(|| store::rec_to_wal(rec)) {
+        Ok(w) => w,
+        Err(p) => return Err(v(&format!("decode_panic:{}", p.rsplit(" @ ").next().unwrap_or("?")), format!("decoding the body of a valid {} record panicked: {}", rec.kind(), p), &refcodec::encode(rec))),
+    };
     let (bytes, n) = match guarded(|| store::crate_encode(&w)) {
         Ok(x) => x,
         Err(p) => return Err(v("encode_panic", format!("encode panicked: {}", p), &[])),
